@@ -227,11 +227,13 @@ fn enc_by_name(name: &str) -> Option<&'static Encoding> {
 
 /// Rust transliteration of coq/Decode/EncLoop.v `decode_to_sink` (NOT the code
 /// under test): used to tie the loop model to the real loop on real decoders.
+/// `repaired` = `decode_to_sink_repaired` of the same file.
 fn model_decode_to_sink(
     mut input: &[u8],
     decoder: &mut encoding_rs::Decoder,
     evs: &mut Vec<String>,
     last: bool,
+    repaired: bool,
 ) {
     let mut fuel = 4 * input.len() + 64;
     loop {
@@ -258,7 +260,7 @@ fn model_decode_to_sink(
             },
         }
         input = &input[read..];
-        if input.is_empty() {
+        if input.is_empty() && !(repaired && last) {
             return;
         }
     }
@@ -366,22 +368,25 @@ fn case_l(arg: &str) -> String {
     let strflag = if chunked == reference && nmal2 == nmal { "str=" } else { "str!" };
     let fullflag = if full1 && full2 { "full=" } else { "full!" };
     // the loop model on the real decoder (UTF-8 goes through Utf8LossyDecoder, no loop)
-    let model = if enc == encoding_rs::UTF_8 {
-        "-".to_string()
-    } else {
+    let run_model = |repaired: bool| -> String {
+        if enc == encoding_rs::UTF_8 {
+            return "-".to_string();
+        }
         let mut mevs: Vec<String> = vec![];
         let mut dec = enc.new_decoder();
         for c in &chunks {
             if c.is_empty() {
                 continue;
             }
-            model_decode_to_sink(c, &mut dec, &mut mevs, false);
+            model_decode_to_sink(c, &mut dec, &mut mevs, false, repaired);
         }
-        model_decode_to_sink(&[], &mut dec, &mut mevs, true);
+        model_decode_to_sink(&[], &mut dec, &mut mevs, true, repaired);
         mevs.join(" ")
     };
+    let model = run_model(false);
+    let model_repaired = run_model(true);
     format!(
-        "{} ; {} {} {} {} {} {} ; {}",
+        "{} ; {} {} {} {} {} {} ; {} ; {}",
         evs,
         hex(sniffed.as_bytes()),
         nmal,
@@ -389,7 +394,8 @@ fn case_l(arg: &str) -> String {
         refflag,
         strflag,
         fullflag,
-        model
+        model,
+        model_repaired
     )
 }
 
